@@ -4,7 +4,8 @@
    (single incrementer, limit), Proofs/Throttle_Fifo.v (FIFO), Proofs/Throttle_Wake.v (no lost wake-up). *)
 From Coq Require Import ZArith List Bool Arith Lia.
 From ME Require Import Base.Machine Base.Fut Base.GenPrelude Gen.ThrottleGen Model.Throttle
-  Proofs.Throttle_Spec Proofs.Throttle_Inv Proofs.Throttle_Fifo Proofs.Throttle_Wake Proofs.Throttle_Wait.
+  Proofs.Throttle_Spec Proofs.Throttle_Inv Proofs.Throttle_Fifo Proofs.Throttle_Wake Proofs.Throttle_Wait
+  Proofs.Throttle_TokC Proofs.Throttle_TokD Proofs.Throttle_TokX.
 Import ListNotations.
 Local Open Scope Z_scope.
 
@@ -153,19 +154,49 @@ Proof.
   repeat split; try reflexivity. vm_compute. auto 10.
 Qed.
 
-(* TODO-PROOF c07_inflight_true
-   The number of delegate futures created and not yet done never exceeds the running count:
-     forall s, reachable s ->
-       Z.of_nat (length (filter (fun d => negb (fdone (ds s d))) (seq 0 (ndel s)))) <= running s
-   and hence, at every delegate.submit (HDSub) event, the futures in flight including the new one are within
-   the limit of the current iteration.  Needs a token invariant per delegate future d (exactly one of: IAddCb1 d
-   pending, CbDone registered on d, IAcqA (ADecr d) pending in exactly one program, HDecr d logged) over the
-   programs of all threads.  Proved instead: c07_inflight_le_count and c07_pending_increment_fits (the count the
-   hand-over thread commits to, which is incremented before delegate.submit and decremented only by done-callbacks,
-   stays within the limit); the monitor checks the true in-flight number on every implementation history. *)
+(* ---- 1b. the TRUE in-flight number (token invariant over the programs of all threads, Proofs/Throttle_Tok*.v) ---
+   The number of delegate futures created and not yet done never exceeds the running count -- the increment precedes
+   delegate.submit of the same job, a future the delegate runs inline is created done, a future finished before
+   add_done_callback(_delegate_future_done) keeps its token in the pending registration, and a decrement is only ever
+   pending for a done future. *)
+Theorem c07_inflight_true : forall s, reachable s ->
+  Z.of_nat (length (filter (fun d => negb (fdone (ds s d))) (seq 0 (ndel s)))) <= running s.
+Proof. exact inflight_true_lemma. Qed.
+(* stronger: futures in flight plus jobs the hand-over thread has committed to but not yet submitted *)
+Theorem c07_inflight_plus_committed : forall s, reachable s -> inflight s + committed s <= running s.
+Proof. exact inflight_committed_lemma. Qed.
+Theorem c07_decrement_only_for_done_future : forall s, reachable s ->
+  forall t d, In (IAcqA (ADecr d)) (thr s t) -> fdone (ds s d) = true.
+Proof. exact decr_only_when_done_lemma. Qed.
+(* at the admission instant (popleft + incr) and at delegate.submit itself, under the limit of the current iteration,
+   the futures in flight INCLUDING the new one are within the limit *)
+Theorem c07_inflight_at_admit : forall s ts tid rest s',
+  reachable s -> step s (ts, EAcqA tid) = Some s' -> thr s tid = IAcqA AIncr :: rest ->
+  forall t, hlim s = Some t -> inflight s' + committed s' <= t.
+Proof. exact inflight_at_admit_lemma. Qed.
+Theorem c07_inflight_at_delegate_submit : forall s ts tid d inl s',
+  reachable s -> step s (ts, EDSubmit tid d inl) = Some s' ->
+  forall t, hlim s = Some t -> inflight s + 1 <= t /\ inflight s' <= t.
+Proof. exact inflight_at_dsubmit_lemma. Qed.
+Example c07_inflight_true_nonvacuous :
+  exists s, reachable s /\ ndel s = 2%nat /\ fdone (ds s 0) = true /\ fdone (ds s 1) = false /\
+            inflight s = 1 /\ committed s = 0 /\ running s = 1.
+Proof. exact inflight_true_nonvacuous. Qed.
+Example c07_inflight_at_delegate_submit_nonvacuous :
+  exists s s', reachable s /\ step s (0, EDSubmit 0 1 None) = Some s' /\ hlim s = Some 2 /\
+               inflight s + 1 = 2 /\ inflight s' = 2 /\ running s' = 2.
+Proof. exact inflight_at_dsubmit_nonvacuous. Qed.
+
 
 
 Print Assumptions c07_inflight_le_count.
+Print Assumptions c07_inflight_true.
+Print Assumptions c07_inflight_plus_committed.
+Print Assumptions c07_decrement_only_for_done_future.
+Print Assumptions c07_inflight_at_admit.
+Print Assumptions c07_inflight_at_delegate_submit.
+Print Assumptions c07_inflight_true_nonvacuous.
+Print Assumptions c07_inflight_at_delegate_submit_nonvacuous.
 Print Assumptions c07_pending_increment_fits.
 Print Assumptions c07_count_eval.
 Print Assumptions c07_count_raise_keeps_last.
